@@ -518,7 +518,12 @@ func GenFuncs(r *Rand, n, dupShapes int, methods bool) []Func {
 // Tree is a generated directory tree.
 type Tree struct {
 	Module string
-	Files  []File
+	// DepModule / DepFiles: an optional second module (wired with a replace
+	// directive) that one package of the tree imports, so that dependency
+	// scanning has something to find.
+	DepModule string
+	DepFiles  []File
+	Files     []File
 	// Extra holds non-analysed files (tests, hidden, vendor, broken, ...) as
 	// rel path -> content.
 	Extra map[string]string
@@ -528,8 +533,34 @@ type Tree struct {
 // files; some functions share short names across packages (same shape, but a
 // different string literal, so the functions are not byte-identical).
 func GenTree(seed uint64, maxPkgs, maxFuncs int) Tree {
+	return GenTreeOpt(seed, maxPkgs, maxFuncs, false)
+}
+
+// GoMod renders the go.mod of the tree's root module; depDir is the relative
+// directory of the dependency module (ignored when the tree has none).
+func (t Tree) GoMod(depDir string) string {
+	s := "module " + t.Module + "\n\ngo 1.23\n"
+	if t.DepModule != "" {
+		s += "\nrequire " + t.DepModule + " v0.0.0\n\nreplace " + t.DepModule + " => " + depDir + "\n"
+	}
+	return s
+}
+
+// GenTreeOpt is GenTree with an optional dependency module.
+func GenTreeOpt(seed uint64, maxPkgs, maxFuncs int, allowDep bool) Tree {
 	r := NewRand(seed)
 	t := Tree{Module: "example.test/gen", Extra: map[string]string{}}
+	withDep := allowDep && NewRand(seed^0xdeb).Intn(2) == 0
+	if withDep {
+		t.DepModule = "example.test/dep"
+		dr := NewRand(seed ^ 0xdeb0)
+		fs := GenFuncs(dr, 2+dr.Intn(3), 1, false)
+		for k := range fs {
+			fs[k].Name = fmt.Sprintf("Dep%s%d", fs[k].Name, k)
+		}
+		src := RenderFile("util", fs, true, false) + "\nfunc Twice(n int) int {\n\treturn n * 2\n}\n\nfunc Scale(n, k int) int {\n\tt := 0\n\tfor i := 0; i < k; i++ {\n\t\tt += n\n\t}\n\treturn t\n}\n"
+		t.DepFiles = append(t.DepFiles, File{Rel: "util/util.go", Pkg: "util", Src: src, Funcs: fs})
+	}
 	nPkgs := 1 + r.Intn(maxPkgs)
 	pkgNames := []string{"alpha", "bravo", "core", "delta"}
 	var shared []Func // functions replicated across packages under the same name
@@ -563,6 +594,11 @@ func GenTree(seed uint64, maxPkgs, maxFuncs int) Tree {
 				}
 			}
 			src := RenderFile(pkg, fs, fi == 0, fi == 0 && r.Intn(2) == 0)
+			if withDep && pi == 0 && fi == 0 {
+				// this file imports the dependency module
+				i := strings.Index(src, "\n\n")
+				src = src[:i] + "\n\nimport \"example.test/dep/util\"" + src[i:] + "\nfunc ViaDep(n int) int {\n\treturn util.Twice(n) + util.Scale(n, 3)\n}\n"
+			}
 			if !needT || fi != 0 {
 				// Box is declared in file 0 of each package regardless; methods in
 				// other files refer to it.
